@@ -6,10 +6,13 @@
 //!   dmnsim child ... / exec-plan ...      (internal)
 
 mod c17;
+mod c20;
 mod core;
 mod driver;
 mod models;
 mod rng;
+mod sched;
+mod simrt;
 
 use crate::core::{Sim, Tier};
 use std::collections::BTreeSet;
@@ -19,11 +22,12 @@ use std::time::Duration;
 fn lookup(id: &str) -> Option<&'static dyn Sim> {
   match id {
     "C17" => Some(&c17::C17),
+    "C20" => Some(&c20::C20),
     _ => None,
   }
 }
 
-const ALL: [&str; 1] = ["C17"];
+const ALL: [&str; 2] = ["C17", "C20"];
 
 fn arg_value(args: &[String], name: &str) -> Option<String> {
   args.iter().position(|a| a == name).and_then(|i| args.get(i + 1)).cloned()
@@ -94,6 +98,18 @@ fn real_main(args: &[String]) -> i32 {
       let mode = args.get(3).cloned().unwrap_or_else(|| "fresh".to_string());
       let reseeds = args.get(4).and_then(|s| s.parse().ok()).unwrap_or(0);
       driver::exec_plan_main(sim, &file, &mode, reseeds)
+    }
+    "debug-builds" => {
+      debug_builds();
+      0
+    }
+    "debug-gen" => {
+      debug_gen();
+      0
+    }
+    "debug-feel" => {
+      debug_feel(&args[1..]);
+      0
     }
     "debug-facts" => {
       debug_facts();
@@ -170,6 +186,68 @@ pub fn debug_facts() {
         Err(e) => println!("{} build error: {}", m.key, e),
       },
       Err(e) => println!("{} parse error: {}", m.key, e),
+    }
+  }
+}
+
+#[allow(dead_code)]
+pub fn debug_builds() {
+  let mut models: Vec<String> = vec!["gen".to_string()];
+  if let Ok(text) = std::fs::read_to_string(c20::data_dir().join("c20_workload.json")) {
+    if let Ok(serde_json::Value::Array(items)) = serde_json::from_str::<serde_json::Value>(&text) {
+      for it in items {
+        let m = it["model"].as_str().unwrap_or("").to_string();
+        if !models.contains(&m) {
+          models.push(m);
+        }
+      }
+    }
+  }
+  let mut bad = 0;
+  for m in &models {
+    match c20::model_text(m) {
+      Some(t) => match dmntk_model::parse(&t) {
+        Ok(d) => match dmntk_model_evaluator::ModelEvaluator::new(&d) {
+          Ok(_) => {}
+          Err(e) => {
+            bad += 1;
+            println!("{} build error: {}", m, e)
+          }
+        },
+        Err(e) => {
+          bad += 1;
+          println!("{} parse error: {}", m, e)
+        }
+      },
+      None => println!("{} unreadable", m),
+    }
+  }
+  println!("{} models, {} do not build", models.len(), bad);
+}
+
+#[allow(dead_code)]
+pub fn debug_gen() {
+  let t = c20::model_text("gen").unwrap();
+  let d = dmntk_model::parse(&t).unwrap();
+  let me = dmntk_model_evaluator::ModelEvaluator::new(&d).unwrap();
+  for inv in ["num", "tmp", "rx", "c1", "c2", "c3", "c4", "svc", "tbl", "label", "twice"] {
+    let ctx = dmntk_feel_evaluator::evaluate_context(&dmntk_feel::Scope::default(), if inv == "label" { r#"{n: 7, t: "ab12_34"}"# } else if inv == "twice" { "{p: 4}" } else { r#"{x: 7, s: "ab12_34"}"# }).unwrap();
+    println!("{} = {}", inv, me.evaluate_invocable(inv, &ctx));
+  }
+}
+
+#[allow(dead_code)]
+pub fn debug_feel(exprs: &[String]) {
+  for e in exprs {
+    let scope = dmntk_feel::Scope::default();
+    let ctx = dmntk_feel_evaluator::evaluate_context(&scope, r#"{x: 7, s: "ab12_34"}"#).unwrap();
+    let scope: dmntk_feel::Scope = ctx.into();
+    match dmntk_feel_parser::parse_expression(&scope, e, false) {
+      Ok(node) => match dmntk_feel_evaluator::evaluate(&scope, &node) {
+        Ok(v) => println!("{} => {}", e, v),
+        Err(err) => println!("{} => eval error {}", e, err),
+      },
+      Err(err) => println!("{} => parse error {}", e, err),
     }
   }
 }
